@@ -84,7 +84,14 @@ input (C02i: sentinel-like passphrases).  Round 10 (17 of 20): recovery ids 2 an
 must play no part in `v` (C11j); declared domain member names that only *look* like the standard ones
 while the value is keyed by the standard name (C20j); progress dots on standard output that appear only
 after a worker has passed a thousand candidates (C18j: 3- and 4-digit searches with few workers, standard
-output must be exactly the phrase line).  Two things held throughout:
+output must be exactly the phrase line).  Round 11 (14 of 20, the agents by now reaching for rarer
+mechanisms): a Latin-1 fallback that turns the lone bytes 0x85 / 0xA0 into white space (C19k: every lone
+high byte); a bare-domain document whose message is never hashed (C09k); dependencies ordered by their
+encoded strings, wrong only for `Safe$Module` next to `Safe` (C08k: name-order family); `_` rewritten to
+`-` inside `--password=VALUE` (C16k: value styles x every printable character); stale buffer contents
+printed after a transaction larger than 32 KiB (C07k: large outputs); a seed of ASCII hex digits decoded
+"for convenience" (C03k: binary data that looks like text, applied to seeds, keys, digests, entropy, RLP
+strings).  Two things held throughout:
 every miss was a missing *input family or observable*, never a wrong theorem or model, and every
 family added for one property was then applied to the others it fits.
 
